@@ -97,20 +97,21 @@ func (fd *Finding) matchesComp(comp, whole Failure) bool {
 }
 
 type AggOpts struct {
-	VerifDir  string
-	RunDir    string // where shard results are
-	Prop      string
-	Tier      string
-	Seed      int64
-	Level     string
-	Rule      string
-	Assume    []string
-	WallS     float64
-	Record    string // finding id: write unlisted failures matching RecordRe into its cases file (maintainer command)
-	RecordRe  string
-	NConfigs  int
-	ExtraCov  map[string]interface{}
-	BuildInfo map[string]interface{}
+	VerifDir    string
+	RunDir      string // where shard results are
+	Prop        string
+	Tier        string
+	Seed        int64
+	Level       string
+	Rule        string
+	Assume      []string
+	WallS       float64
+	Record      string // finding id: write unlisted failures matching RecordRe into its cases file (maintainer command)
+	RecordRe    string
+	NConfigs    int
+	EvidenceDir string
+	ExtraCov    map[string]interface{}
+	BuildInfo   map[string]interface{}
 }
 
 // Aggregate merges shard results, matches failures against known findings, writes evidence and replays.
@@ -354,8 +355,12 @@ func Aggregate(o AggOpts) int {
 		"assumptions": o.Assume, "wall_s": o.WallS, "violations": len(unlisted),
 	}
 	eb, _ := json.MarshalIndent(ev, "", " ")
-	os.MkdirAll(filepath.Join(o.VerifDir, "evidence"), 0o755)
-	if err := os.WriteFile(filepath.Join(o.VerifDir, "evidence", o.Prop+".json"), eb, 0o644); err != nil {
+	evd := o.EvidenceDir
+	if evd == "" {
+		evd = filepath.Join(o.VerifDir, "evidence")
+	}
+	os.MkdirAll(evd, 0o755)
+	if err := os.WriteFile(filepath.Join(evd, o.Prop+".json"), eb, 0o644); err != nil {
 		fmt.Println("ERROR:", err)
 		return 2
 	}
